@@ -1,6 +1,7 @@
 import BufProofs.Lemmas.PathLemmas
 import BufProofs.Lemmas.BucketLemmas
 import BufProofs.Lemmas.DiskRootLemmas
+import BufProofs.Lemmas.ArchiveKindsLemmas
 /-
   C13 — No path can escape a bucket's root.  Property theorems only; helper lemmas live in
   BufProofs/Lemmas.
@@ -11,7 +12,7 @@ import BufProofs.Lemmas.DiskRootLemmas
   the root" = a key that does not have `fullKey ls` as a component-wise prefix.
 -/
 namespace BufProofs.C13
-open BufModel.Path BufModel.Bucket BufModel.Disk
+open BufModel.Path BufModel.Bucket BufModel.Disk BufModel.Archive BufModel.ArchiveKinds
 
 /-- After lexical reduction a relative path is k copies of ".." followed by proper names, and a
     rooted path has no ".." at all. -/
@@ -392,5 +393,238 @@ example : vPut [.pre "../x".toList] exParent "a".toList "C" = .error .outsideCon
 example : vPut [.pre "/abs".toList] exParent "a".toList "C" = .error .notRelative := by decide
 example : vDeleteAll [.pre "a/../..".toList] exParent ".".toList = .error .outsideContext := by decide
 example : vPut [.pre "a//b/".toList] [] "c".toList "C" = .ok [("a/b/c".toList, "C")] := by decide
+
+/-! ### Archive extraction over ENTRY KINDS (Untar / Unzip loops, `BufModel.ArchiveKinds`)
+
+An entry is what the archive reader yields: kind (tar typeflag + mode-field type bits, or zip
+attribute class), name, link name, content.  `extractRaw .tar` / `.zip` are the Untar / Unzip
+loops as coded, started on ANY bucket content `m`.  "Refused name" = `nameRejected` = empty, or
+refused by `NormalizeAndValidate` — by shape: `nameRejected_iff`. -/
+
+/-- the refused entry names by shape: empty, or — after cleaning — absolute, "..", or "../…" -/
+theorem nameRejected_iff (name : Str) :
+    nameRejected name = true ↔
+      (name = [] ∨ isAbs (clean name) = true ∨ clean name = dotdot ∨ jumpPrefix.isPrefixOf (clean name) = true) := by
+  rw [← rejected_iff]
+  unfold nameRejected
+  by_cases h0 : name = []
+  · simp [h0]
+  · simp only [h0, decide_false, Bool.false_or, false_or]
+    cases normalizeAndValidate name with
+    | error e => simp
+    | ok p => simp
+
+/-- Untar: an entry of ANY kind — regular, directory, symlink, hard link, fifo, device, PAX global
+    header, unknown typeflag, whatever the mode bits — whose name escapes (or is empty) makes the
+    extraction fail, wherever it stands in the archive, whatever strip count, matcher, size limit
+    and destination content.  No exception (since fix 36b7500 the AppleDouble "._" skip comes
+    after the name check, as in Unzip; the behaviour before it is
+    `untar_apple_before_name_check_counterexample`). -/
+theorem untar_escaping_entry_rejected (es : List RawEntry) (strip : Nat) (f : Str → Bool) (mx : Nat) (m : Mem)
+    (e : RawEntry) (he : e ∈ es) (hesc : nameRejected e.name = true) :
+    ∃ er, (extractRaw .tar strip f mx es m).1 = some er :=
+  extractInto_error_of_mem .tar strip f mx _ e.toEntry (List.mem_map.mpr ⟨e, he, rfl⟩)
+    (fun m' => extractEntry_rejects .tar strip f mx m' e.toEntry hesc) m
+
+/-- Unzip: an entry of ANY kind whose name escapes (or is empty) makes the extraction fail — no
+    exception: directory names ending in '/', symlink-mode entries and "._" names included. -/
+theorem unzip_escaping_entry_rejected (es : List RawEntry) (strip : Nat) (f : Str → Bool) (mx : Nat) (m : Mem)
+    (e : RawEntry) (he : e ∈ es) (hesc : nameRejected e.name = true) :
+    ∃ er, (extractRaw .zip strip f mx es m).1 = some er :=
+  extractInto_error_of_mem .zip strip f mx _ e.toEntry (List.mem_map.mpr ⟨e, he, rfl⟩)
+    (fun m' => extractEntry_rejects .zip strip f mx m' e.toEntry hesc) m
+
+/-- Untar without a size limit fails EXACTLY when some entry has a refused name:
+    entry kinds, AppleDouble names, link names, contents, order, strip count and matcher play no role. -/
+theorem untar_error_iff (es : List RawEntry) (strip : Nat) (f : Str → Bool) (m : Mem) :
+    (∃ er, (extractRaw .tar strip f 0 es m).1 = some er) ↔ ∃ e ∈ es, nameRejected e.name = true := by
+  unfold extractRaw
+  rw [extractInto_error_iff]
+  constructor
+  · rintro ⟨x, hx, h2⟩
+    obtain ⟨e, he, rfl⟩ := List.mem_map.mp hx
+    exact ⟨e, he, h2⟩
+  · rintro ⟨e, he, h2⟩
+    exact ⟨e.toEntry, List.mem_map.mpr ⟨e, he, rfl⟩, h2⟩
+
+/-- Unzip fails EXACTLY when some entry has a refused name. -/
+theorem unzip_error_iff (es : List RawEntry) (strip : Nat) (f : Str → Bool) (m : Mem) :
+    (∃ er, (extractRaw .zip strip f 0 es m).1 = some er) ↔ ∃ e ∈ es, nameRejected e.name = true := by
+  unfold extractRaw
+  rw [extractInto_error_iff]
+  constructor
+  · rintro ⟨x, hx, h2⟩
+    obtain ⟨e, he, rfl⟩ := List.mem_map.mp hx
+    exact ⟨e, he, h2⟩
+  · rintro ⟨e, he, h2⟩
+    exact ⟨e.toEntry, List.mem_map.mpr ⟨e, he, rfl⟩, h2⟩
+
+/-- Whatever the archive holds and however the extraction ends (finished or aborted), every
+    object of the destination afterwards was there before, or is the content of an entry that the
+    reader classifies REGULAR, is not AppleDouble, and it sits under the path `unmapArchivePath`
+    computed from that entry's own name (`archive_entry_contained`: a non-empty key of proper
+    names).  Link names are never a source of a path or of a content. -/
+theorem extract_written_sound (fmt : Fmt) (strip : Nat) (f : Str → Bool) (mx : Nat) (es : List RawEntry) (m : Mem) :
+    ∀ kv ∈ (extractRaw fmt strip f mx es m).2, kv ∈ m ∨
+      ∃ e ∈ es, e.ekind = .reg ∧ e.apple fmt = false ∧
+        unmapArchivePath e.name strip f = .ok (some kv.1) ∧ kv.2 = e.content := by
+  intro kv h
+  rcases extractInto_writes fmt strip f mx _ m kv h with hin | ⟨x, hx, hr, ha, hu, hc⟩
+  · exact Or.inl hin
+  · obtain ⟨e, he, rfl⟩ := List.mem_map.mp hx
+    refine Or.inr ⟨e, he, ?_, ha, hu, hc⟩
+    exact of_decide_eq_true hr
+
+/-- Untar that succeeds: every written path is a non-empty key of proper names (no "..", ".",
+    empty or separator-bearing component, not absolute), every object comes from a regular entry
+    as in `extract_written_sound`, AND no entry of any kind had a refused name. -/
+theorem untar_ok_paths_proper (es : List RawEntry) (strip : Nat) (f : Str → Bool) (mx : Nat) (m : Mem)
+    (h : untar es strip f mx = (none, m)) :
+    KeysValid m ∧
+    (∀ kv ∈ m, ∃ e ∈ es, e.ekind = .reg ∧ e.apple .tar = false ∧
+        unmapArchivePath e.name strip f = .ok (some kv.1) ∧ kv.2 = e.content) ∧
+    (∀ e ∈ es, nameRejected e.name = false) := by
+  have hw := extract_written_sound .tar strip f mx es []
+  unfold untar at h
+  rw [h] at hw
+  have h2 : ∀ kv ∈ m, ∃ e ∈ es, e.ekind = .reg ∧ e.apple .tar = false ∧
+      unmapArchivePath e.name strip f = .ok (some kv.1) ∧ kv.2 = e.content := by
+    intro kv hkv
+    rcases hw kv hkv with hin | hex
+    · cases hin
+    · exact hex
+  refine ⟨?_, h2, ?_⟩
+  · intro kv hkv
+    obtain ⟨e, _, _, _, hu, _⟩ := h2 kv hkv
+    obtain ⟨_, k, _, _, hk, hne, hp, _⟩ := unmapArchivePath_sound e.name strip f kv.1 hu
+    exact ⟨k, hk, hne, hp⟩
+  · intro e he
+    cases hr : nameRejected e.name with
+    | false => rfl
+    | true =>
+      obtain ⟨er, herr⟩ := untar_escaping_entry_rejected es strip f mx [] e he hr
+      rw [h] at herr; cases herr
+
+/-- Unzip that succeeds: as `untar_ok_paths_proper`, and NO entry at all had a refused name. -/
+theorem unzip_ok_paths_proper (es : List RawEntry) (strip : Nat) (f : Str → Bool) (m : Mem)
+    (h : unzip es strip f = (none, m)) :
+    KeysValid m ∧
+    (∀ kv ∈ m, ∃ e ∈ es, e.ekind = .reg ∧ e.apple .zip = false ∧
+        unmapArchivePath e.name strip f = .ok (some kv.1) ∧ kv.2 = e.content) ∧
+    (∀ e ∈ es, nameRejected e.name = false) := by
+  have hw := extract_written_sound .zip strip f 0 es []
+  unfold unzip at h
+  rw [h] at hw
+  have h2 : ∀ kv ∈ m, ∃ e ∈ es, e.ekind = .reg ∧ e.apple .zip = false ∧
+      unmapArchivePath e.name strip f = .ok (some kv.1) ∧ kv.2 = e.content := by
+    intro kv hkv
+    rcases hw kv hkv with hin | hex
+    · cases hin
+    · exact hex
+  refine ⟨?_, h2, ?_⟩
+  · intro kv hkv
+    obtain ⟨e, _, _, _, hu, _⟩ := h2 kv hkv
+    obtain ⟨_, k, _, _, hk, hne, hp, _⟩ := unmapArchivePath_sound e.name strip f kv.1 hu
+    exact ⟨k, hk, hne, hp⟩
+  · intro e he
+    cases hr : nameRejected e.name with
+    | false => rfl
+    | true =>
+      obtain ⟨er, herr⟩ := unzip_escaping_entry_rejected es strip f 0 [] e he hr
+      rw [h] at herr; cases herr
+
+/-- Links and special files are never materialised: an entry the reader does not classify regular
+    (tar: symlink, char/block device, directory, fifo typeflags, or dir/fifo/symlink/device/socket
+    bits in the mode field; zip: directory / symlink / fifo / socket / device attributes or a name
+    ending in '/') leaves the destination exactly as it was — or aborts the extraction.  (The
+    destination model holds path ↦ bytes objects only: there is no object kind a link could have.) -/
+theorem extract_never_materialises_links (fmt : Fmt) (strip : Nat) (f : Str → Bool) (mx : Nat) (m m' : Mem)
+    (e : RawEntry) (hk : e.ekind ≠ .reg) (h : extractEntry fmt strip f mx m e.toEntry = .ok m') : m' = m := by
+  rcases extractEntry_writes fmt strip f mx m m' e.toEntry h with rfl | ⟨hr, _⟩
+  · rfl
+  · exact absurd (of_decide_eq_true hr) hk
+
+/-- which reader-level kinds are NOT regular, whatever the other header field says -/
+theorem nonregular_kinds (mb : ModeBits) (t : TarType) (name : Str) :
+    tarEKind .symlink mb ≠ .reg ∧ tarEKind .dir mb ≠ .reg ∧ tarEKind .fifo mb ≠ .reg ∧
+    tarEKind .char mb ≠ .reg ∧ tarEKind .block mb ≠ .reg ∧
+    tarEKind t .lnk ≠ .reg ∧ tarEKind t .dir ≠ .reg ∧ tarEKind t .fifo ≠ .reg ∧
+    zipEKind .symlink name ≠ .reg ∧ zipEKind .unixDir name ≠ .reg ∧ zipEKind .dosDir name ≠ .reg ∧
+    zipEKind .fifo name ≠ .reg ∧ zipEKind .blockDev name ≠ .reg ∧ zipEKind .charDev name ≠ .reg ∧
+    zipEKind .socket name ≠ .reg := by
+  refine ⟨?_, ?_, ?_, ?_, ?_, ?_, ?_, ?_, ?_, ?_, ?_, ?_, ?_, ?_, ?_⟩ <;>
+    first
+      | (cases mb <;> decide)
+      | (cases t <;> decide)
+      | (unfold zipEKind; cases endsWithSlash name <;> decide)
+
+/-- a zip entry whose name ends in '/' is a directory whatever its attributes say -/
+theorem zip_trailing_slash_not_regular (z : ZipMode) (name : Str) (h : endsWithSlash name = true) :
+    zipEKind z name = .dir := by
+  unfold zipEKind; simp [h]
+
+/-- Nothing reads the link name: rewriting every link name of the archive in any way changes
+    neither the outcome nor the destination.  (As coded a HARD LINK entry — typeflag '1', which
+    the reader classifies regular — produces an EMPTY object under the entry's OWN validated
+    name; its link name, however hostile, is not consulted.) -/
+theorem extract_ignores_linkname (fmt : Fmt) (strip : Nat) (f : Str → Bool) (mx : Nat) (es : List RawEntry)
+    (m : Mem) (l : RawEntry → Str) :
+    extractRaw fmt strip f mx (es.map fun e => { e with linkname := l e }) m = extractRaw fmt strip f mx es m := by
+  unfold extractRaw
+  rw [List.map_map]
+  rfl
+
+/-- Benign regular entries ARE written: when the extraction succeeds, every regular,
+    non-AppleDouble entry that `unmapArchivePath` maps to a path has an object under that path. -/
+theorem extract_regular_written (fmt : Fmt) (strip : Nat) (f : Str → Bool) (mx : Nat) (es : List RawEntry) (m : Mem)
+    (hok : (extractRaw fmt strip f mx es m).1 = none)
+    (e : RawEntry) (he : e ∈ es) (hr : e.ekind = .reg) (ha : e.apple fmt = false)
+    (p : Str) (hu : unmapArchivePath e.name strip f = .ok (some p)) :
+    p ∈ (extractRaw fmt strip f mx es m).2.keys :=
+  extractInto_regular_written fmt strip f mx _ m hok e.toEntry (List.mem_map.mpr ⟨e, he, rfl⟩)
+    (by simp [Entry.isRegular, RawEntry.toEntry, hr]) ha p hu
+
+-- non-vacuity and the as-coded quirks, on concrete archives
+def exDirEsc : RawEntry := { kind := .tar .dir .none, name := "../evil/".toList, linkname := [], content := "" }
+def exSymEsc : RawEntry := { kind := .tar .symlink .none, name := "a/../../l".toList, linkname := "/etc/passwd".toList, content := "" }
+def exSymOk : RawEntry := { kind := .tar .symlink .none, name := "top/l".toList, linkname := "../../etc/passwd".toList, content := "" }
+def exHard : RawEntry := { kind := .tar .link .none, name := "top/h".toList, linkname := "../outside.txt".toList, content := "" }
+def exReg : RawEntry := { kind := .tar .reg .none, name := "top/./a//x".toList, linkname := [], content := "A" }
+def exZipDirEsc : RawEntry := { kind := .zip .plain, name := "/abs/d/".toList, linkname := [], content := "" }
+def exZipApple : RawEntry := { kind := .zip .plain, name := "../._evil.proto".toList, linkname := [], content := "E" }
+def exTarApple : RawEntry := { kind := .tar .reg .none, name := "../._evil.proto".toList, linkname := [], content := "E" }
+def allP : Str → Bool := fun _ => true
+
+example : untar [exReg, exSymOk, exHard] 1 allP 0 = (none, [("h".toList, ""), ("a/x".toList, "A")]) := by decide
+example : untar [exReg, exDirEsc] 0 allP 0 = (some .outsideContext, [("top/a/x".toList, "A")]) := by decide
+example : untar [exSymEsc, exReg] 2 allP 0 = (some .outsideContext, []) := by decide
+example : unzip [exZipDirEsc] 3 allP = (some .notRelative, []) := by decide
+example : unzip [exZipApple] 0 allP = (some .outsideContext, []) := by decide
+example : nameRejected exDirEsc.name = true ∧ exDirEsc.apple .tar = false := by decide
+
+/-- Seed C13-m8 (kind / AppleDouble filter hoisted in front of the name check), tar: an escaping
+    DIRECTORY or SYMLINK entry is skipped silently and the extraction succeeds, where the code as
+    it stands fails. -/
+theorem hoisted_untar_counterexample :
+    extractHoisted .tar 0 allP 0 [exDirEsc, exSymEsc, exReg] [] = (none, [("top/a/x".toList, "A")]) ∧
+    (untar [exDirEsc, exSymEsc, exReg] 0 allP 0).1 = some .outsideContext := by decide
+
+/-- Seed C13-m8, zip: an absolute directory name and an escaping "._" name are skipped silently. -/
+theorem hoisted_unzip_counterexample :
+    extractHoisted .zip 0 allP 0 [exZipDirEsc, exZipApple] [] = (none, []) ∧
+    (unzip [exZipDirEsc, exZipApple] 0 allP).1 = some .notRelative ∧
+    (unzip [exZipApple] 0 allP).1 = some .outsideContext := by decide
+
+/-- Before the fix, Untar (not Unzip) dropped an AppleDouble-named entry BEFORE looking at its name:
+    an escaping "../._x" tar entry was skipped silently instead of being rejected (nothing was
+    written).  `extractHoisted` has that order for the AppleDouble test; the code as it stands
+    rejects the archive. -/
+theorem untar_apple_before_name_check_counterexample :
+    extractHoisted .tar 0 allP 0 [exTarApple] [] = (none, []) ∧
+    untar [exTarApple] 0 allP 0 = (some .outsideContext, []) ∧ nameRejected exTarApple.name = true := by decide
+
+-- an AppleDouble-named entry with a PROPER name is still skipped, not written and not an error
+example : untar [{ kind := .tar .reg .none, name := "a/._x".toList, linkname := [], content := "E" }, exReg] 0 allP 0 =
+    (none, [("top/a/x".toList, "A")]) := by decide
 
 end BufProofs.C13
